@@ -124,6 +124,11 @@ impl Api {
                     5 => s.snapshot6(&cv[0], &cv[1], &cv[2], &cv[3], &cv[4], |a: &i64, b: &i64, c: &i64, d: &i64, e: &i64, f: &i64| fn_(&[*a, *b, *c, *d, *e, *f])),
                     _ => return "skip".into() };
                 self.h.insert(x.to_string(), H::S(r)); ok() }
+            ["snaplazy", x, s, c] => { fresh!(x); let (s, c) = (need!(self.s(s)), need!(self.c(c)));
+                // a Lazy taken inside a propagation callback and forced by the next node: the cell's value in this transaction
+                let dep = c.to_dep();
+                let sl: Stream<Lazy<i64>> = s.map(lambda1(move |_: &i64| c.sample_lazy(), vec![dep]));
+                self.h.insert(x.to_string(), H::S(sl.map(|l: &Lazy<i64>| l.run()))); ok() }
             ["gate", x, s, c] => { fresh!(x); let (s, c) = (need!(self.s(s)), need!(self.c(c))); self.h.insert(x.to_string(), H::S(s.gate(&c.map(|v: &i64| even(*v))))); ok() }
             ["hold", x, s, k] => { fresh!(x); let (s, k) = (need!(self.s(s)), need!(num(k))); self.h.insert(x.to_string(), H::C(s.hold(k))); ok() }
             ["holdlazy", x, s, z] => { fresh!(x); let s = need!(self.s(s)); let z = match self.h.get(*z) { Some(H::Z(z, _)) => z.clone(), _ => return "skip".into() };
@@ -164,6 +169,18 @@ impl Api {
                 let dep = base.to_dep();
                 let csa = sel.map(lambda1(move |k: &i64| { let k = *k; base.map(move |v: &i64| f2(op, *v, k)) }, vec![dep]));
                 self.h.insert(x.to_string(), H::S(Cell::switch_s(&csa))); ok() }
+            ["switchlate", x, s, base, op] => { fresh!(x); let (s, base, op) = (need!(self.s(s)), need!(self.s(base)), need!(num(op)));
+                // the canonical dynamic switch: every event of `s` builds a fresh stream on `base`; nothing before the first event
+                let dep = base.to_dep();
+                let ss: Stream<Stream<i64>> = s.map(lambda1(move |k: &i64| { let k = *k; base.map(move |v: &i64| f2(op, *v, k)) }, vec![dep]));
+                let cs = ss.hold(self.ctx.new_stream());
+                self.h.insert(x.to_string(), H::S(Cell::switch_s(&cs))); ok() }
+            ["switchlatec", x, s, base, op] => { fresh!(x); let (s, base, op) = (need!(self.s(s)), need!(self.s(base)), need!(num(op)));
+                // cells built on demand: every event k of `s` builds, inside the transaction, a fresh cell on `base`
+                let dep = base.to_dep();
+                let sc: Stream<Cell<i64>> = s.map(lambda1(move |k: &i64| { let k = *k; base.map(move |v: &i64| f2(op, *v, k)).hold(k) }, vec![dep]));
+                let cc = sc.hold(self.ctx.new_cell(0));
+                self.h.insert(x.to_string(), H::C(Cell::switch_c(&cc))); ok() }
             ["switchc", x, sel, cands @ ..] => { fresh!(x); let sel = need!(self.c(sel)); if cands.is_empty() { return "skip".into(); }
                 let mut cv: Vec<Cell<i64>> = vec![]; for c in cands { cv.push(need!(self.c(c))); }
                 let deps = cv.iter().map(|c| c.to_dep()).collect();
@@ -196,6 +213,12 @@ impl Api {
             ["post", p, c] => { fresh!(p); let c = need!(self.c(c)); let log = self.log.clone(); let name = p.to_string();
                 self.h.insert(p.to_string(), H::P);
                 self.ctx.post(move || { let v = c.sample(); log.lock().unwrap().push((name.clone(), v)); }); ok() }
+            ["postsend", p, s, v] => { fresh!(p); let v = need!(num(v));
+                // a send made by a posted closure: a transaction of its own after the current one
+                match self.h.get(*s) {
+                    Some(H::SS(x)) => { let x = x.clone(); self.h.insert(p.to_string(), H::P); self.ctx.post(move || x.send(v)); ok() }
+                    Some(H::CS(x)) => { let x = x.clone(); self.h.insert(p.to_string(), H::P); self.ctx.post(move || x.send(v)); ok() }
+                    _ => "skip".into() } }
             ["drop", x] => match self.h.get(*x) { Some(H::Dropped) | None | Some(H::T(_)) | Some(H::P) => "skip".into(), _ => { self.h.insert(x.to_string(), H::Dropped); ok() } },
             ["clone", y, x] => { fresh!(y);
                 let n = match self.h.get(*x) { Some(H::S(s)) => H::S(s.clone()), Some(H::SS(s)) => H::SS(s.clone()), Some(H::C(c)) => H::C(c.clone()), Some(H::CS(c)) => H::CS(c.clone()),
@@ -390,20 +413,29 @@ pub fn run_script(lines: Vec<Vec<String>>) -> Vec<String> {
 }
 
 pub fn run_stdin() -> Result<(), String> {
-    let budget_ms: u64 = std::env::var("API_SCRIPT_TIMEOUT_MS").ok().and_then(|s| s.parse().ok()).unwrap_or(10000);
+    let budget_ms: u64 = std::env::var("API_SCRIPT_TIMEOUT_MS").ok().and_then(|s| s.parse().ok()).unwrap_or(5000);
     let stdin = std::io::stdin();
     let stdout = std::io::stdout();
     let mut out = std::io::BufWriter::new(stdout.lock());
     let mut cur: Vec<Vec<String>> = vec![];
+    let mut hangs = 0u32;
     let mut flush = |cur: &mut Vec<Vec<String>>, sep: bool, out: &mut dyn Write| -> Result<(), String> {
         if !cur.is_empty() {
             let lines = std::mem::take(cur);
             let n = lines.len();
             let (tx, rx) = std::sync::mpsc::channel();
             std::thread::Builder::new().stack_size(256 << 20).spawn(move || { let r = run_script(lines); let _ = tx.send(r); }).map_err(|e| e.to_string())?;
-            match rx.recv_timeout(std::time::Duration::from_millis(budget_ms)) {
+            // a library that hangs on many scripts must not stall the whole run (every hung script leaves a thread behind):
+            // after three hangs the budget drops to 1 s, after ten the remaining scripts are not run at all
+            if hangs >= 10 {
+                for _ in 0..n { writeln!(out, "SKIPPED").map_err(|e| e.to_string())?; }
+                if sep { writeln!(out, "---").map_err(|e| e.to_string())?; }
+                return Ok(());
+            }
+            let budget = if hangs >= 3 { budget_ms.min(1000) } else { budget_ms };
+            match rx.recv_timeout(std::time::Duration::from_millis(budget)) {
                 Ok(r) => { for l in r { writeln!(out, "{l}").map_err(|e| e.to_string())?; } }
-                Err(_) => { for _ in 0..n { writeln!(out, "HANG").map_err(|e| e.to_string())?; } }
+                Err(_) => { hangs += 1; for _ in 0..n { writeln!(out, "HANG").map_err(|e| e.to_string())?; } }
             }
         }
         if sep { writeln!(out, "---").map_err(|e| e.to_string())?; }
